@@ -123,6 +123,9 @@ def run(ctx):
     ctx.guard('C03.analysable', ctx.shared, {'C05.c-truncated-ifft-zeroed': 'C03.g-truncated-input-zeroed'}, c05.ifft_rule, ctx, ctx.facts('x86_64'), 'x86_64')
     ctx.rule('C03.h-split-borrow-consistency', 'where a function splits a buffer in two to borrow two ranges at once and does so differently in the two arms of an ordering test, both arms touch the same absolute positions (an index into the upper half counts from the split point)')
     ctx.guard('C03.analysable', split_borrow_consistency, ctx, ctx.facts('x86_64'), 'x86_64')
+    ctx.rule('C03.i-byte-order-fixed', 'the crate splits and joins 16-bit field elements by arithmetic or by the little-endian conversions only: no native- or big-endian byte conversion (to/from_ne_bytes, to/from_be_bytes, to_be, from_be, swap_bytes) and no integer <-> byte-array transmute is reachable in non-test code, so the portable engines give the same bytes as the SIMD ones on every target')
+    for cfg in cfgs:
+        ctx.guard('C03.analysable', byte_order, ctx, ctx.facts(cfg), cfg)
     ctx.guard('C03.analysable', kernel_siblings, ctx, {c: ctx.facts(c) for c in cfgs})
     for cfg in cfgs:
         facts = ctx.facts(cfg)
@@ -130,6 +133,40 @@ def run(ctx):
         ctx.guard('C03.analysable', bounded_access, ctx, facts, cfg)
         ctx.guard('C03.analysable', unsafe_census, ctx, facts, cfg)
         ctx.guard('C03.analysable', eval_poly, ctx, facts, cfg)
+
+
+# ------------------------------------------------------------------ (i)
+
+BYTE_ORDER_RE = re.compile(r'::(to_ne_bytes|from_ne_bytes|to_be_bytes|from_be_bytes|to_be|from_be|swap_bytes)$')
+
+
+def byte_order(ctx, facts, cfg):
+    R = 'C03.i-byte-order-fixed'
+    n = 0
+    for p, fn in sorted(facts.fns.items()):
+        for b, t in fn.body.calls():
+            q = t['callee'].get('path') or t['callee'].get('decl') or ''
+            n += 1
+            if t.get('exp_fmt'):
+                continue
+            m = BYTE_ORDER_RE.search(q)
+            if m and re.search(r'core::num::|std::num::|<impl (u|i)(8|16|32|64|128|size)>|^(u|i)(16|32|64|128|size)::', q):
+                ctx.violation(R, 'native-order:%s' % m.group(1), '%s calls %s: the bytes it produces or consumes depend on the byte order of the target, '
+                              'the SIMD engines and the stored layout (low bytes in the first half of a 64-byte block) do not' % (p, core.short(q)),
+                              site=t['line'], fn=p, cfg=cfg)
+        # integer <-> byte array transmutes
+        for bi in range(fn.body.n):
+            for st in fn.body.blocks[bi]['stmts']:
+                rv = st.get('rv') if st['k'] == 'assign' else None
+                if rv and rv.get('k') == 'cast' and 'ransmute' in str(rv.get('cast') or rv.get('kind') or '') and not st.get('exp'):
+                    src_ty = fn.body.local_ty(core.op_place(rv['op'])['l']) if core.op_place(rv.get('op', {})) and not core.op_place(rv['op'])['p'] else ''
+                    dst_ty = rv.get('ty') or rv.get('to') or ''
+                    tys = (str(src_ty), str(dst_ty))
+                    if any(re.match(r'^(u|i)(16|32|64|128|size)$', x) for x in tys) and any(re.match(r'^\[u8; \d+\]$', x) for x in tys):
+                        ctx.violation(R, 'transmute', '%s transmutes between %s and %s: the result depends on the byte order of the target' % (p, tys[0], tys[1]),
+                                      site=st.get('line'), fn=p, cfg=cfg)
+    ctx.ok(R, 'calls-scanned@%s' % cfg, {'call_sites': n})
+    ctx.floor(R, 300, n, 'call sites scanned for byte-order conversions', cfg=cfg)
 
 
 # ------------------------------------------------------------------ (a)
